@@ -297,6 +297,32 @@ func propC02(c *ctx) error {
 				}
 			}
 		}
+		// the same insertion points under a manager configured with ANOTHER attribute prefix: what is escaped depends on the
+		// directive, not on how its name is spelled (one prefix per string, chosen by the string)
+		{
+			ap := []string{"th:", "data-t-", "@", "v-"}[len(s)%4]
+			for _, pt := range points[:8] {
+				tpl := c06AttrRe.ReplaceAllString(pt.tpl, " "+ap+"$1")
+				mk := func(str string) (renderOut, *renderCase) {
+					rc := &renderCase{Files: [][2]string{{"t", tpl}}, Tpl: "t", Cfg: map[string]any{"attrPrefix": ap},
+						Data: vMap(kv{"s", vStr(str)}, kv{"t", vBool(true)}, kv{"items", vAnySlice(vStr(str), vStr("k"))}, kv{"fs", val{nil, J{"fn": "fs"}}}).j,
+						Fns:  map[string]fnDecl{"fs": {Kind: "val", Ret: vStr(str).j}}}
+					return implRender(rc, -1), rc
+				}
+				out, rc := mk(s)
+				ref, _ := render(pt.tpl, s) // the default-prefix rendering of the same point, judged above
+				res.S3Checked++
+				res.count("custom_prefix_points")
+				if out.Load != "ok" || out.St != "ok" || out.text() != ref.text() {
+					res.violate(rc.toJ(), ref.text(), J{"load": out.Load, "st": out.St, "out": out.text()}, "under a custom attribute prefix an insertion point renders differently from the default prefix (escaping must not depend on the spelling of the directive)")
+				}
+				if c.d != nil && len(s) <= 2 {
+					if _, _, err := compareRender(c, rc, true); err != nil {
+						return err
+					}
+				}
+			}
+		}
 		// the raw directive is the only place that emits the value unmodified
 		out, rc := render(`<p :raw="${s}">o</p>`, s)
 		res.S3Checked++
